@@ -135,6 +135,12 @@ def run(ctx, R, tier):
     R.check(len(pushes) == 1 and len(stores) == 1 and order_ok_once(c, pushes, stores) and oks and not unw, 'B.C10.err-order', 'push-then-flag',
             'on a decode error the error is not queued (ignoring a full queue with .ok()) before encountered_error is raised',
             detail='error_producer.push(e).ok() ≺ encountered_error.store(true)')
+    # ... on every path of the error arm (a path that leaves without raising the flag ends the thread while the sound keeps
+    # waiting for data that will never come: it is never Stopped and never unloaded)
+    noflag = [p for p in errc if not any(cp.endswith('::store') for _, cp in p.calls)]
+    R.check(bool(errc) and not noflag, 'B.C10.err-order', 'flag:every-path',
+            'the error arm of the decoder loop can be left without raising encountered_error (%d of %d paths)' % (len(noflag), len(errc)),
+            detail={'paths': len(errc)}, where=c.file)
     st = [t for x, t in c.calls() if (callee_path(t) or '').endswith('::store')]
     if st:
         d = describe(c, st[0]['args'][1])
